@@ -71,6 +71,7 @@ def replay_config(chk, behs, rng):
     for bi, b in enumerate(behs):
         core.reset_world()
         calcs = {}
+        shared_dicts = {}      # the caller keeps ONE settings dict per set of overrides and passes the same object again
         for step, e in enumerate(b):
             op = e["op"]
             a = op["a"]
@@ -93,7 +94,15 @@ def replay_config(chk, behs, rng):
                 m.reset_globals()
             elif a == "NewCalc":
                 over = {kk: CUSTOM[kk] for kk in op["over"]}
+                if bi % 3 != 2:
+                    over = shared_dicts.setdefault(frozenset(op["over"]), over)
+                    chk.stratum("cfg_settings_dict_reused")
+                before_dict = dict(over)
                 calcs[op["c"]] = m.Calculator(_config=over if (over or bi % 2) else None)
+                if over != before_dict:
+                    chk.violation("C18.CallerSettingsDictMutated", k, {**det, "before": before_dict, "after": dict(over)})
+                    over.clear()
+                    over.update(before_dict)
             elif a == "Use":
                 calc = calcs[op["c"]]
                 exp = expected_cfg(e["cfg"][op["c"]])
@@ -392,7 +401,7 @@ def run(chk: core.Check, replay=None) -> None:
     with tempfile.TemporaryDirectory(dir=str(core.scratch())) as td:
         replay_names(chk, cases, td)
     chk.sample({"name_case": cases[7]})
-    chk.require_strata(["cfg_SetGlobalStep", "cfg_ResetGlobals", "cfg_NewCalc", "cfg_Use", "cfg_nonpositive_global_step",
+    chk.require_strata(["cfg_settings_dict_reused", "cfg_SetGlobalStep", "cfg_ResetGlobals", "cfg_NewCalc", "cfg_Use", "cfg_nonpositive_global_step",
                         "cfg_use_with_global_changed", "gravity_custom", "limits_custom", "names_parse_unit", "names_set_pref",
                         "names_value_with_prefix", "names_value_preferred_name", "names_config_file_preferred",
                         "names_config_file_step_units", "names_unknown"])
